@@ -5,6 +5,7 @@ import copy
 
 from . import dl, gen_dl
 from . import c15_ast as A
+from . import c15_ctx as C
 
 AUX = "c15_aux"          # an extra relation nobody derives: aggregating it can never break stratification
 
@@ -237,12 +238,19 @@ def base_program(rng, tag):
     if rng.random() < 0.25:      # binders written with a (parenthesised / tuple / reference / @) pattern, binding a NEW variable
         n = 0
 
+        fresh = C.Fresh("b")
+
         def shape_for(form, body, bi, x):
             # a variable the helper does not report is bound AGAIN by a later clause that mentions it instead of being joined
             # (the well-formed face of the finding paren_pattern_escapes_shadow_check; the subject of C07): keep the
             # parenthesised shapes to variables no later clause mentions
             for _ in range(8):
-                _, sh = pick_shape(rng, form, 1.0)
+                if rng.random() < 0.5:      # a stack of pattern constructors around the NEW variable (typed: the program must compile)
+                    frames, leaf = C.random_context(rng, form, True)
+                    sh = C.compose(frames, C.LEAVES[leaf], fresh, typed=True)
+                    info.setdefault("contexts", []).append(C.context_name(frames, leaf))
+                else:
+                    _, sh = pick_shape(rng, form, 1.0)
                 if not A.shape_hidden(sh) or not used_as_clause_arg(body, x, bi + 1):
                     return sh
             return None
@@ -491,6 +499,9 @@ def mut_shadow(rng, p):
     if form in ("clause_cond", "pattern") and not prev_clauses:
         form = "let"
     sname, shape = pick_shape(rng, form)
+    if shape is not None and rng.random() < 0.4:      # any stack of pattern constructors above the rebinding identifier
+        frames, leaf = C.random_context(rng, form, False)
+        sname, shape = C.context_name(frames, leaf), C.compose(frames, C.LEAVES[leaf], C.Fresh("m"))
     if form == "let":
         r["body"].insert(pos, ("cond", with_shape(("let", x, "incs", [y]), shape)))
     elif form == "iflet":
@@ -510,7 +521,7 @@ def mut_shadow(rng, p):
             raise NoSite()
         x, y = rng.choice(vs), rng.choice(vs)
         if rng.random() < 0.5:
-            if sname not in SHAPES_FOR["iflet"]:
+            if sname not in SHAPES_FOR["iflet"] and not str(sname).startswith("ctx:"):
                 sname, shape = None, None
             c = with_shape(("iflet", x, "predpos", [y]), shape)
         else:
@@ -545,6 +556,87 @@ def mut_shadow(rng, p):
     return dict(cls="shadow", detail=x, form=form, shape=sname,
                 hidden=bool((shape is not None and A.shape_hidden(shape)) or x not in seen),
                 hidden_first=bool(x not in seen))
+
+
+CTX_FORMS = ["let", "iflet", "gen", "agg", "clause_cond", "pattern"]
+
+
+def _ctx_binder(rng, r, pos, form, x, y, shape, uniq):
+    """insert at body position pos a binder of the given position kind whose pattern (shape, None = the plain identifier)
+    binds x; y is a variable bound before pos"""
+    body = r["body"]
+    if form == "let":
+        body.insert(pos, ("cond", with_shape(("let", x, "incs", [y]), shape)))
+    elif form == "iflet":
+        body.insert(pos, ("cond", with_shape(("iflet", x, "predpos", [y]), shape)))
+    elif form == "gen":
+        body.insert(pos, with_shape(("gen", x, "upto", [y]), shape))
+    elif form == "agg":
+        z = "c15z%s" % uniq
+        body.insert(pos, with_shape(("agg", x, "sum", [z], AUX, [("b", z)]), shape))
+    elif form == "clause_cond":      # a condition attached to a clause: c15_aux(q) let PAT = e   /   c15_aux(q) if let Some(PAT) = e
+        c = ("iflet", x, "predpos", [y]) if rng.random() < 0.5 else ("let", x, "incs", [y])
+        body.insert(pos, ("clause", AUX, [("v", "c15q%s" % uniq)], [with_shape(c, shape)]))
+    elif form == "pattern":          # c15_aux(?PAT)
+        body.insert(pos, ("clause", AUX, [with_shape(("p", x), shape)], []))
+    else:
+        raise ValueError(form)
+
+
+def mut_shadow_ctx(rng, p, form=None, frames=None, leaf="ident", which=None, site="random"):
+    """the rebinding of a variable with a stack of pattern constructors (gen/c15_ctx.py) above it:
+       which = 'second': a variable bound earlier in the rule is bound again below the context;
+               'first' : a new variable is bound below the context and bound again by a plain binder later in the rule;
+               'both'  : both binders of the new variable sit below (different) contexts.
+       site: 'random' | 'last' (the rebinding binder is the last body item) | 'middle' (clauses follow it)"""
+    form = form or rng.choice(CTX_FORMS)
+    which = which or rng.choice(["second", "second", "first", "both"])
+    if frames is None:
+        frames, leaf = C.random_context(rng, form, False)
+    fresh = C.Fresh("x")
+    sites = []
+    for r in _rules(p):
+        bound = []
+        for bi, it in enumerate(r["body"]):
+            if bound:
+                sites.append((r, bi, list(bound)))
+            bound += item_binds(it)
+        if bound:
+            sites.append((r, len(r["body"]), list(bound)))
+    if site == "last":
+        sites = [s for s in sites if s[1] == len(s[0]["body"])]
+    elif site == "middle":
+        sites = [s for s in sites if s[1] < len(s[0]["body"])] or sites
+    if not sites:
+        raise NoSite()
+    r, pos, bound = rng.choice(sites)
+    seen = []
+    for it in r["body"][:pos]:
+        seen += item_binds(it, visible=True)
+    y = rng.choice(bound)
+    shape = C.compose(frames, C.LEAVES[leaf], fresh)
+    name = C.context_name(frames, leaf)
+    if which == "second":
+        x = rng.choice(bound)
+        _ctx_binder(rng, r, pos, form, x, y, shape, "a")
+        hidden_first = x not in seen
+        hidden = A.shape_hidden(shape) or hidden_first
+        second = name
+    else:
+        x = "c15r"
+        _ctx_binder(rng, r, pos, form, x, y, shape, "a")
+        form2 = rng.choice(CTX_FORMS)
+        if which == "both":
+            frames2, leaf2 = C.random_context(rng, form2, False, depth=rng.choice([1, 2]))
+            shape2, second = C.compose(frames2, C.LEAVES[leaf2], fresh), C.context_name(frames2, leaf2)
+        else:
+            shape2, second = None, "ident"
+        pos2 = pos + 1 if site == "last" else rng.randrange(pos + 1, len(r["body"]) + 1)
+        _ctx_binder(rng, r, pos2, form2, x, y, shape2, "b")
+        hidden_first = A.shape_hidden(shape)
+        hidden = hidden_first or (shape2 is not None and A.shape_hidden(shape2))
+    return dict(cls="shadow", detail=x, form=form, shape=name, which=which, second=second, depth=len(frames),
+                cons=[f.con for f in frames], hidden=bool(hidden), hidden_first=bool(hidden_first))
 
 
 def mut_recursive_macro(rng, p):
@@ -782,6 +874,7 @@ MUTATIONS = {
     "arity": (mut_arity, 10, True),
     "not_stratified": (mut_strat, 10, True),
     "shadow": (mut_shadow, 10, True),
+    "shadow_ctx": (mut_shadow_ctx, 6, True),
     "recursive_macro": (mut_recursive_macro, 8, True),
     "ds_on_lattice": (mut_ds_on_lattice, 5, True),
     "unknown_attr": (mut_unknown_attr, 5, True),
